@@ -252,6 +252,17 @@ func (r *reader) SetPosition(line int, pos Segment) {
 	r.peekedLine = nil
 	r.line = line
 	r.pos = pos
+	head := pos.Start
+	if head > r.sourceLength {
+		head = r.sourceLength
+	}
+	for head > 0 && r.source[head-1] != '\n' {
+		head--
+	}
+	if head < 0 {
+		head = 0
+	}
+	r.head = head
 }
 
 func (r *reader) SetPadding(v int) {
